@@ -372,3 +372,37 @@ Proof.
     induction HF as [|sw subs' Hsw _ IH]; constructor; [exact (box_tree_sym _ Hsw)|exact IH].
 Qed.
 End Sym.
+
+(* SO(3) leaf: the quaternion dot product is bit-exactly symmetric (IEEE multiplication commutes), hence so is
+   2 acos(min(|dot|, 1)) whatever the acos oracle is; trees with R^n and SO(3) leaves are symmetric *)
+From Flocq Require Import Core IEEE754.BinarySingleNaN IEEE754.PrimFloat.
+Lemma SFmul_comm : forall x y, SFmul prec emax x y = SFmul prec emax y x.
+Proof.
+intros [sx|sx| |sx mx ex] [sy|sy| |sy my ey]; simpl; try reflexivity;
+  try (rewrite (xorb_comm sx sy); reflexivity).
+rewrite (xorb_comm sx sy), (Pos.mul_comm mx my), (Z.add_comm ex ey). reflexivity.
+Qed.
+Lemma fmul_comm : forall x y : F, (x * y)%float = (y * x)%float.
+Proof. intros x y. apply Prim2SF_inj. rewrite !mul_spec. apply SFmul_comm. Qed.
+
+Lemma so3_dist_float_sym : forall acosF ax ay az aw bx by_ bz bw,
+  so3_dist acosF ax ay az aw bx by_ bz bw = so3_dist acosF bx by_ bz bw ax ay az aw.
+Proof.
+  intros. unfold so3_dist, q_dot.
+  rewrite (fmul_comm ax bx), (fmul_comm ay by_), (fmul_comm az bz), (fmul_comm aw bw). reflexivity.
+Qed.
+
+Inductive rv_so3_tree : space -> Prop :=
+| st_rv : forall dim bs frac, rv_so3_tree (RV dim bs frac)
+| st_so3 : forall cx cy cz cw maxa frac, rv_so3_tree (SO3 cx cy cz cw maxa frac)
+| st_cs : forall subs, Forall (fun sw => rv_so3_tree (fst sw)) subs -> rv_so3_tree (CS subs).
+
+Fixpoint rv_so3_tree_sym acosF (s : space) (H : rv_so3_tree s) {struct H} : dist_sym_law acosF s.
+Proof.
+  destruct H as [dim bs frac|cx cy cz cw maxa frac|subs HF].
+  - apply rv_leaf_sym.
+  - intros x y. destruct x as [l|v|qx qy qz qw|xs]; destruct y as [l'|v'|qx' qy' qz' qw'|ys]; try reflexivity.
+    cbn [distance]. f_equal. apply so3_dist_float_sym.
+  - apply compound_distance_symmetric.
+    induction HF as [|sw subs' Hsw _ IH]; constructor; [exact (rv_so3_tree_sym acosF _ Hsw)|exact IH].
+Qed.
